@@ -66,7 +66,7 @@ PROPS = {
                 "dead ends (values nobody concludes), actions = 1..2 literal assignments; two thirds of the sets assign every field in at most one rule with its designated value (deterministic, monotone), the others contain "
                 "wrong-value conclusions and competing rules; shared sub-goals and cyclic dependencies arise freely; initial facts = a random subset of designated values (rarely a wrong value); one atomic goal per case; "
                 "max_depth in {0,1,2,3,6,10} (at most 4 / 3 for non-deterministic sets of more than 3 / 5 rules: the search is exponential in the bound on cyclic sets); strategies depth-first (3/5), breadth-first, iterative; max_solutions 1 and 3; plus a structured family (a third as many cases): a goal needing a conjunction of sub-goals, each with a chain of rules down to a base fact, decoy rules listed first that reach a shared "
-                "sub-goal through a longer path, max_depth = exact height needed -2..+1. Observed per query: provable, the caller's facts before and after. non-trivial = provable",
+                "sub-goal through a longer path, max_depth = exact height needed -2..+1. Observed per query: provable, the caller's facts before and after. non-trivial = provable A quarter of the cases use string values that contain operator characters (a goal `F == \"a>=b\"`).",
         "level_text": "Theorems (Coq, every rule set / goal / depth / facts): whenever the depth-first search with execution - at the root or at any sub-goal - reports a goal proven, the goal comparison holds in the facts "
                 "it hands back; the same for iterative deepening; and for Horn-style sets every result stays within EVERY closed set of atoms that covers the facts asked on - a proven goal is satisfied by an atom of the forward closure. BOUNDED COMPLETENESS is a theorem too (Proofs/BackwardCompleteProofs.v, C09_bounded_completeness_partial): "
                 "for every Horn instance of any size - conjunctive conditions of positive comparisons against boolean / string / null literals, every field single-valued over facts and conclusions - a goal that holds at level h <= max_depth of the bounded "
@@ -120,7 +120,7 @@ PROPS = {
         "num": 3,
         "vo": ["Properties/C03.vo"],
         "rule": "random self-triggering and mutually triggering rule sets (1..5 rules, mostly without no-loop: counters, toggles, assignments feeding each other's conditions) with max_cycles uniformly in 0..=64 and the "
-                "timeout disabled; observed: cycle count, fired count, firing sequence, final fields; non-trivial = at least one firing",
+                "timeout disabled; observed: cycle count, fired count, firing sequence, final fields; non-trivial = at least one firing A third of the self-triggering rule sets carry agenda groups and ActivateAgendaGroup actions (the focus moves in the middle of a run).",
         "level_text": "Proved for every condition language and action semantics (total functions): execute makes at most max_cycles passes, the reported cycle count equals the number of passes and is <= max_cycles, the "
                 "fired count equals the number of firings, every pass but the last fired something and the last is quiet unless the bound was reached, and after a quiet last pass no still-eligible rule has a true condition "
                 "on the final facts (fixpoint). Termination is structural recursion on cycles and rules. The monitor is equality of the implementation's observations with this proved model on the concrete instance.",
@@ -137,7 +137,7 @@ PROPS = {
                 "parse_stream_pattern / parse_stream_join_pattern, parse_aggregate_query, DisjunctionParser, NestedQueryParser::parse / has_nested on arbitrary text) x streams: random strings over the identifier alphabet; every "
                 "single insertion of 12 multi-byte characters (incl. 6 whose case mapping changes the UTF-8 length: U+0130, U+212A, U+023A, U+1E9E, U+0390, U+FB01) into 5 expressions; every seed x blank position x entry point with such a character directly before the blank, and with it earlier plus a multi-byte character after the following token; 19 valid seed texts (incl. string literals with escaped quotes / backslashes, a window duration at the u64 limit) and their mutants (truncate, duplicate a segment, insert a multi-byte character / a token, splice with another seed, delete, "
                 "replace by a delimiter, replace a digit run by one of 8 limit numbers); EVERY prefix of every seed (3 entry points each; thorough: all), every seed x digit run x limit number x entry point; token soups of 48 GRL/query tokens; lossily decoded raw bytes; prefix chains and nestings (!, (, [, {, NOT, -, !(, exists() of depth 33, 500 and up to 4 KiB. The batch runs in a child "
-                "process: a panic is caught per case, a stack overflow/abort or 120 s without progress marks the case and the run continues. non-trivial = every case Expression-parser stream: 5000 (quick) / 150000 (thorough) token strings over the query alphabet plus every prefix and suffix of four queries, AST compared with the model.",
+                "process: a panic is caught per case, a stack overflow/abort or 120 s without progress marks the case and the run continues. non-trivial = every case Expression-parser stream: 5000 (quick) / 30000 (thorough) token strings over the query alphabet plus every prefix and suffix of four queries, AST compared with the model.",
         "level_text": "Theorem for the expression evaluator, for EVERY string: no slice off a character boundary or out of range, termination with recursion depth <= length+1 (every slice of the code carries its byte offsets in the "
                 "model, a bad slice is the value RPanic). On the identifier alphabet the model's exact outcome (first failing leaf) is compared with the code. All other entry points are exercised by the fuzzing streams under "
                 "the crash/hang watchdog; the verdict per case is the Coq-defined ExprShape.ok (returned a value or an error). Second modelled parser (Model/BwExpr.v): the backward-chaining ExpressionParser (recursive descent over a Vec<char> with an index; reached through ExpressionParser::parse, QueryParser and GRLQuery) - theorem for EVERY string and every character classification: no index / slice of the parser is out of range and the mutual recursion with its two loops ends within depth 6*length+8; on a query alphabet (identifiers, all literal kinds with escapes, signed / dotted numbers, every operator, parentheses, negation, variables, non-ASCII letters / digits / blanks / symbols) the model predicts the AST or the error exactly and is compared with the code; QueryParser::parse (empty query, trim, optional leading NOT) is modelled on top of it with the same theorem and comparison.",
@@ -186,7 +186,7 @@ PROPS = {
         "rule": "exhaustive: every history with premises live when recorded, depth<=5 (quick) / <=6 (thorough) over <=4 handles with premise "
                 "subsets of size<=2 (insert_explicit, insert_logical, extra justification, retract of every issued handle); random: 3..10 ops "
                 "over <=7 facts incl. duplicated premises and circular support; non-trivial = at least one logical fact (label not 'trivial'); "
-                "labels cascadeN = retractions that removed more than the target",
+                "labels cascadeN = retractions that removed more than the target Deep systematic stream: every valid sequence of up to 4 (thorough 5) add-justification / retract-premise operations around one derived fact with three explicit premises.",
         "level_text": "Proved for every justification graph and recursion depth: the cascade never takes a fact with an explicit justification, explicit "
                 "facts change liveness only by their own retraction, only retractions remove facts. The full statement is a theorem (Proofs/TmsSupportProofs.v, invariant Good "
                 "kept by every operation): after ANY well-formed history of any length, a fact that was issued and not itself retracted is present exactly when one of its justifications is explicit or has all "
@@ -325,7 +325,7 @@ PROPS = {
         "rule": "700 (quick) / 2500 (thorough) random rule sets of 1..24 rules (And/Or/Not trees of integer comparisons to depth 3 over 5 fields, one of them always missing; salience ties; ~10% disabled) x "
                 "max_threads 1..16 x min_rules_per_thread 1..4 x parallelism on/off, each executed 6 (quick) / 10 (thorough) times with the cfg-guarded yield/sleep points in the worker loop enabled; observed per run: "
                 "evaluated count, fired count, the (rule, verdict) set; before every second observed run the SAME engine executes a decoy knowledge base of the same name, size, version counter and rule names "
-                "with negated conditions and reversed saliences (state remembered by the engine between calls shows up in the observed run); non-trivial = at least 2 rules",
+                "with negated conditions and reversed saliences (state remembered by the engine between calls shows up in the observed run); non-trivial = at least 2 rules Contention stream: one salience level, 4..16 threads, more rules than threads (250 quick / 1500 thorough cases).",
         "level_text": "Theorem for every rule set, facts, thread count >= 1, chunking parameters and EVERY order in which worker threads deliver their results: the parallel contexts are a permutation of evaluating the "
                 "enabled rules one by one (same set of verdicts, same evaluated and fired counts); chunking partitions each salience level and the levels partition the enabled rules. The harness compares the real "
                 "engine's verdict sets and counts with the sequential specification under perturbed schedules.",
